@@ -239,7 +239,7 @@ def r3_range(run):
             _pos, off = seek_position(ev[3], size, ev[4], '_set_range')
             if off is None:
                 continue
-            lo = ex.le_by_minmax(-size, off) or path.implies_le0(-size - off)
+            lo = ex.le_by_minmax(-size, off) or path.implies_le0(-size - off) or nonpos(path, -off)  # (off >= 0 >= -size)
             run.check(lo, 'a seek relative to the end of the file never reaches before the first byte (offset >= -size, clamped or guarded): '
                       'a relative seek before the start of a real file raises', f, ev[4], where=f.loc(ev[4]),
                       witness=wit + ['offset=%s' % off.key()],
